@@ -40,7 +40,7 @@ Definition erase_m (d : mdef) : mdef :=
      m_body := match m_body d with BCode b => BCode (erase_b b) | BForward c => BForward c end |}.
 
 Definition erase_p (P : prog) : prog :=
-  {| p_classes := map (fun cd => {| c_name := c_name cd; c_methods := map erase_m (c_methods cd) |}) (p_classes P);
+  {| p_classes := map (fun cd => {| c_name := c_name cd; c_base := c_base cd; c_methods := map erase_m (c_methods cd) |}) (p_classes P);
      p_funcs := map erase_m (p_funcs P);
      p_main := erase_b (p_main P) |}.
 
@@ -113,7 +113,9 @@ Definition mdef_eqb (a b : mdef) : bool :=
   && list_eqb N.eqb (m_params a) (m_params b) && body_eqb (m_body a) (m_body b).
 
 Definition cdef_eqb (a b : cdef) : bool :=
-  N.eqb (c_name a) (c_name b) && list_eqb mdef_eqb (c_methods a) (c_methods b).
+  N.eqb (c_name a) (c_name b)
+  && match c_base a, c_base b with Some x, Some y => N.eqb x y | None, None => true | _, _ => false end
+  && list_eqb mdef_eqb (c_methods a) (c_methods b).
 
 Definition prog_eqb (a b : prog) : bool :=
   list_eqb cdef_eqb (p_classes a) (p_classes b) && list_eqb mdef_eqb (p_funcs a) (p_funcs b)
